@@ -64,6 +64,7 @@ CONSTANTS N,         \* nodes 1..N, index = rank
           Deltas,    \* offsets of requests made while evaluating
           MaxPend,   \* a freely choosing node keeps at most this many times pending at once
           PerEval,   \* ... and asks for at most this many (1 or 2) in one evaluation
+          Budget,    \* requests that all free nodes together may make in one run
           Kinds,     \* kinds a node may take
           Withdraw,  \* free nodes may withdraw (un_schedule()) their earliest pending time
           Stops,     \* a node may call request_stop
@@ -82,7 +83,7 @@ Sorted(S) == LET RECURSIVE F(_)
              IN F(S)
 
 VARIABLES start, end, prog,            \* the scenario: chosen once
-          phase,                       \* "config" | "bind" | "start" | "idle" | "cycle" | "done"
+          phase,                       \* "config" | "bind" | "start" | "idle" | "cycle" | "tail" (of a cycle) | "done"
           sn,                          \* node being configured / started
           now,                         \* evaluation_time (of the executor and of the root graph)
           first,                       \* no cycle has run yet
@@ -93,20 +94,22 @@ VARIABLES start, end, prog,            \* the scenario: chosen once
           ran,                         \* nodes evaluated at the current engine time
           mono, asked, twice, lostn,   \* verdict flags: see the invariants
           stopReq,
-          tcount,                      \* remaining ticks of a timer
+          budget, tcount,              \* requests the free nodes may still make; remaining ticks of a timer
           script, cycles               \* history (not part of the VIEW)
 
 vars == <<start, end, prog, phase, sn, now, first, slot, nxt, cursor, err, ev, direct, wd, must, fbq, ran, mono, asked, twice,
-          lostn, stopReq, tcount, script, cycles>>
+          lostn, stopReq, budget, tcount, script, cycles>>
 \* Schedule entries that are not in the future are stale (lazy clean-up): nothing ever reads more of them than "not in the
 \* future" - schedule_node_impl tests `scheduled <= current`, the scan `scheduled == now` for the nodes it has not passed yet
 \* and `scheduled > now` for the fold.  The exhaustive configurations identify states that differ only in stale entries.
 NormSlot == [n \in Nodes |->
-               IF phase = "cycle" THEN (IF slot[n] > now \/ (slot[n] = now /\ n >= cursor) THEN slot[n] ELSE 0)
+               IF phase \in {"cycle", "tail"} THEN (IF slot[n] > now \/ (slot[n] = now /\ n >= cursor) THEN slot[n] ELSE 0)
                ELSE IF phase \in {"idle", "done"} /\ ~first THEN (IF slot[n] > now THEN slot[n] ELSE 0)
                ELSE slot[n]]
-NoHist == <<start, end, prog, phase, sn, now, first, NormSlot, nxt, cursor, err, ev, direct, wd, must, fbq, ran, mono, asked,
-            twice, lostn, stopReq, tcount>>
+\* (ran is read only by a later cycle at the SAME engine time; TimeStrictlyIncreases excludes one in the code as it is)
+NoHist == <<start, end, prog, phase, sn, now, first, NormSlot, nxt, cursor, err, ev, direct, wd, must, fbq,
+            IF Fault = "none" THEN {} ELSE ran, mono, asked,
+            twice, lostn, stopReq, budget, tcount>>
 
 ----------------------------------------------------------------------------
 \* the node vocabulary
@@ -176,7 +179,7 @@ Init == /\ start \in Starts /\ end \in Ends /\ end > start
         /\ ev = [n \in Nodes |-> {}] /\ direct = [n \in Nodes |-> {}] /\ wd = [n \in Nodes |-> {}]
         /\ must = {} /\ fbq = {} /\ ran = {}
         /\ mono = TRUE /\ asked = TRUE /\ twice = FALSE /\ lostn = FALSE /\ stopReq = FALSE
-        /\ tcount = [n \in Nodes |-> 0]
+        /\ budget = Budget /\ tcount = [n \in Nodes |-> 0]
         /\ script = [n \in Nodes |-> <<>>] /\ cycles = <<>>
 
 Configure ==
@@ -185,7 +188,7 @@ Configure ==
                                    /\ tcount' = [tcount EXCEPT ![sn] = IF r.kind = "timer" THEN r.cnt ELSE 0]
     /\ IF sn = N THEN phase' = "bind" /\ sn' = 1 ELSE phase' = phase /\ sn' = sn + 1
     /\ UNCHANGED <<start, end, now, first, slot, nxt, cursor, err, ev, direct, wd, must, fbq, ran, mono, asked, twice, lostn,
-                   stopReq, script, cycles>>
+                   stopReq, budget, script, cycles>>
 
 \* a feedback is bound to some node with an output (possibly its own source)
 Bind ==
@@ -196,7 +199,7 @@ Bind ==
           ELSE \E m \in outs : prog' = [prog EXCEPT ![Min(fbs)].fbof = m]
     /\ phase' = "start" /\ sn' = 1
     /\ UNCHANGED <<start, end, now, first, slot, nxt, cursor, err, ev, direct, wd, must, fbq, ran, mono, asked, twice, lostn,
-                   stopReq, tcount, script, cycles>>
+                   stopReq, budget, tcount, script, cycles>>
 
 \* what a node may ask for in its start hook: [req (through its scheduler, the start time included), dir (directly)]
 StartChoices(n) ==
@@ -216,6 +219,8 @@ StartChoices(n) ==
 StartNode ==
     /\ phase = "start" /\ sn <= N
     /\ \E c \in StartChoices(sn) :
+         /\ LET cost == IF prog[sn].kind = "free" THEN Cardinality(c.req) ELSE 0
+            IN cost <= budget /\ budget' = budget - cost
          /\ LET x  == NSchedAll([ev |-> {}, st |-> Tables], sn, c.req, FALSE)
                 s2 == SchedAll(x.st, IF c.dir = {} THEN {} ELSE {sn}, start)
             IN /\ ev' = [ev EXCEPT ![sn] = x.ev]
@@ -232,7 +237,7 @@ Seed ==
     /\ nxt' = MinOr({slot[n] : n \in {m \in Nodes : IF Fault = "seedgt" THEN slot[m] > start ELSE slot[m] >= start}}, Inf)
     /\ phase' = "idle"
     /\ UNCHANGED <<start, end, prog, sn, now, first, slot, cursor, err, ev, direct, wd, must, fbq, ran, mono, asked, twice, lostn,
-                   stopReq, tcount, script, cycles>>
+                   stopReq, budget, tcount, script, cycles>>
 
 ----------------------------------------------------------------------------
 AllPending == UNION {ev[n] \cup direct[n] : n \in Nodes}
@@ -242,7 +247,7 @@ Done == /\ phase' = "done"
         /\ (Emit => PrintT(<<"SIMB", ToJson([start |-> start, end |-> end, prog |-> prog, script |-> script, cycles |-> cycles,
                                                stopped |-> stopReq])>>))
         /\ UNCHANGED <<start, end, prog, sn, now, first, slot, nxt, cursor, err, ev, direct, wd, must, fbq, ran, mono, asked, twice,
-                       lostn, stopReq, tcount, script, cycles>>
+                       lostn, stopReq, budget, tcount, script, cycles>>
 
 \* graph.cpp evaluate_impl, before the node loop
 BeginCycle(T) ==
@@ -255,7 +260,7 @@ BeginCycle(T) ==
     /\ mono' = (mono /\ (first \/ T > now))
     /\ asked' = (asked /\ T \in AllPending \cup AllWithdrawn)
     /\ cycles' = Append(cycles, [t |-> T, ev |-> <<>>, next |-> 0, slots |-> <<>>])
-    /\ UNCHANGED <<start, end, prog, sn, slot, err, ev, direct, wd, twice, lostn, stopReq, tcount, script>>
+    /\ UNCHANGED <<start, end, prog, sn, slot, err, ev, direct, wd, twice, lostn, stopReq, budget, tcount, script>>
 
 \* executor.cpp run_storage: one turn of the loop up to graph.evaluate (no push source: push_update_pending is false)
 Loop ==
@@ -279,7 +284,7 @@ SkipNode ==
     /\ must' = must \ {cursor}
     /\ cursor' = cursor + 1
     /\ UNCHANGED <<start, end, prog, phase, sn, now, first, slot, err, ev, direct, wd, fbq, ran, mono, asked, twice, stopReq,
-                   tcount, script, cycles>>
+                   budget, tcount, script, cycles>>
 
 \* what user code may do in an evaluation at T: [req, wdr (a tag replacement: the old event is erased before the new one
 \* is inserted), wda (un_schedule() of the earliest pending time, after the requests), same (ticked consumers),
@@ -298,7 +303,7 @@ EvalChoices(n) ==
                     r \in {q \in UpTo(fut, PerEval) : Cardinality(q \ ev[n]) <= room},
                     w \in (IF Withdraw THEN BOOLEAN ELSE {FALSE}),
                     s \in UpTo({m \in Nodes : m > n}, 2),
-                    x \in {{}} \cup {{m} : m \in Nodes}}
+                    x \in {{}}}        \* (the feedback deliveries of free nodes are chosen in FeedbackSinks)
           [] k \in {"srcall", "pass", "fbsrc"} -> {out({}, {}, TRUE)}
           [] k = "srcchain" -> {out(r, {}, TRUE) : r \in UpTo(fut, 1)}
           [] k = "timer" -> {out(IF tcount[n] > 1 THEN {T + p.d} ELSE {}, {}, TRUE)}
@@ -311,6 +316,8 @@ EvalNode ==
     /\ phase = "cycle" /\ cursor \in Nodes /\ slot[cursor] = now
     /\ LET n == cursor  T == now IN
        \E c \in EvalChoices(n) :
+         /\ LET cost == IF prog[n].kind = "free" THEN Cardinality(c.req) ELSE 0
+            IN cost <= budget /\ budget' = budget - cost
          /\ LET schedNow == ev[n] # {} /\ Min(ev[n]) = T                     \* sampled before user code runs
                 \* user code: a tag replacement erases the old event first; neither it nor un_schedule() rewrites the slot
                 x0 == NSchedAll([ev |-> ev[n] \ c.wdr, st |-> Tables], n, c.req, TRUE)
@@ -339,28 +346,28 @@ EvalNode ==
 
 \* A feedback's sink is a consumer ranked after the bound producer AND after the feedback's own source: when it runs, both
 \* have had their turn.  It schedules the source one step ahead, directly in the table (feedback_node.cpp).  Nothing else
-\* touches a source's slot in between, so all sinks of a cycle are folded into one step at the end of the scan.
+\* touches a source's slot in between, so all sinks of a cycle are folded into one step at the end of the scan.  (Free
+\* nodes: any one node may be the source of a feedback to which some output that ticked in this cycle is bound.)
 FeedbackSinks ==
-    /\ phase = "cycle" /\ cursor = N + 1 /\ fbq # {}
-    /\ Commit(SchedAll(Tables, fbq, IF Fault = "fbnow" THEN now ELSE now + 1))
-    /\ direct' = [m \in Nodes |-> IF m \in fbq THEN direct[m] \cup {now + 1} ELSE direct[m]]
-    /\ fbq' = {}
-    /\ UNCHANGED <<start, end, prog, phase, sn, now, first, cursor, ev, wd, must, ran, mono, asked, twice, lostn, stopReq, tcount,
-                   script, cycles>>
+    /\ phase = "cycle" /\ cursor = N + 1
+    /\ \E q \in (IF Typed THEN {fbq} ELSE {{}} \cup {{m} : m \in Nodes}) :
+         /\ Commit(SchedAll(Tables, q, IF Fault = "fbnow" THEN now ELSE now + 1))
+         /\ direct' = [m \in Nodes |-> IF m \in q THEN direct[m] \cup {now + 1} ELSE direct[m]]
+    /\ fbq' = {} /\ phase' = "tail"
+    /\ UNCHANGED <<start, end, prog, sn, now, first, cursor, ev, wd, must, ran, mono, asked, twice, lostn, stopReq, budget,
+                   tcount, script, cycles>>
 
 \* evaluate_impl, after the node loop: the cursor is reset ("completed").  Some node of the cycle may have called
 \* request_stop: the engine finishes the cycle and the loop head sees the flag.
-\* (ran outlives the cycle only where time may fail to advance: TimeStrictlyIncreases makes the next cycle clear it.)
 EndCycle ==
-    /\ phase = "cycle" /\ cursor = N + 1 /\ fbq = {}
+    /\ phase = "tail"
     /\ cursor' = IF Fault = "noreset" THEN cursor ELSE 0
     /\ phase' = "idle"
     /\ wd' = [n \in Nodes |-> {t \in wd[n] : t > now}]
-    /\ ran' = IF Fault = "none" THEN {} ELSE ran
-    /\ \E stp \in (IF Stops /\ ran # {} THEN BOOLEAN ELSE {FALSE}) : stopReq' = stp
+    /\ \E stp \in (IF Stops THEN BOOLEAN ELSE {FALSE}) : stopReq' = stp
     /\ cycles' = [cycles EXCEPT ![Len(cycles)].next = nxt, ![Len(cycles)].slots = slot]
-    /\ UNCHANGED <<start, end, prog, sn, now, first, slot, nxt, err, ev, direct, must, fbq, mono, asked, twice, lostn, tcount,
-                   script>>
+    /\ UNCHANGED <<start, end, prog, sn, now, first, slot, nxt, err, ev, direct, must, fbq, ran, mono, asked, twice, lostn, budget,
+                   tcount, script>>
 
 Next == Configure \/ Bind \/ StartNode \/ Seed \/ Loop \/ SkipNode \/ EvalNode \/ FeedbackSinks \/ EndCycle
 Spec == Init /\ [][Next]_vars
@@ -373,13 +380,13 @@ Pending(n) == ev[n] \cup direct[n]
 \* evaluation time strictly increases from cycle to cycle
 TimeStrictlyIncreases == mono
 \* ... is never earlier than the start time and never reaches the end time
-WithinWindow == phase = "cycle" => (start <= now /\ now < end)
+WithinWindow == phase \in {"cycle", "tail"} => (start <= now /\ now < end)
 \* every wake-up asked for inside the run window is honoured by a cycle at exactly the requested time: a cycle never
 \* jumps over a pending time, when a cycle ends nothing that was due in it is left, and the run does not end (unless it
 \* was told to stop) while a time before the end is pending.  (A pending time leaves ev / direct only when its node is
 \* evaluated at that very time.)
 EveryWakeupHonouredExactly ==
-    /\ phase = "cycle" => \A n \in Nodes : \A t \in Pending(n) : t >= now
+    /\ phase \in {"cycle", "tail"} => \A n \in Nodes : \A t \in Pending(n) : t >= now
     /\ (phase = "idle" /\ ~first) => \A n \in Nodes : \A t \in Pending(n) : t > now
     /\ (phase = "done" /\ ~stopReq /\ ~err) => \A n \in Nodes : \A t \in Pending(n) : t >= end
 \* no cycle occurs at a time for which nothing was requested (a time a node asked for and withdrew is its own stale request)
@@ -397,7 +404,8 @@ NoLostNotify == ~lostn
 NeverPast == ~err
 \* the scan of a fresh cycle starts at the first node and only moves forward, one node at a time
 CursorStep == /\ (phase = "idle" /\ phase' = "cycle") => cursor' = 1
-              /\ (phase = "cycle" /\ phase' = "cycle") => (cursor' = cursor + 1 \/ (cursor' = cursor /\ cursor = N + 1))
-              /\ (phase = "cycle" /\ phase' = "idle") => (cursor = N + 1 /\ cursor' = 0)
+              /\ (phase = "cycle" /\ phase' = "cycle") => cursor' = cursor + 1
+              /\ (phase = "cycle" /\ phase' = "tail") => (cursor = N + 1 /\ cursor' = cursor)
+              /\ (phase = "tail" /\ phase' = "idle") => cursor' = 0
 CursorMonotone == [][CursorStep]_vars
 =============================================================================
